@@ -1385,6 +1385,46 @@ class Sym:
             return "vec[%s]" % "; ".join(sorted(pushed))
         return "mut(%s)" % self.name(init)
 
+    def pure_map_loops(self):
+        """{exit-switch block: header} of the loops that are nothing but `for x in IT { v.push(f(x)) }`: one `next`, one
+        push (recognised by push_loop_as_map), and the exhaustion edge as the only way out.  Such a loop is the
+        expression `IT.map(f).collect()`: its exhaustion is not a guard of the surrounding path."""
+        if getattr(self, "_pml", None) is not None:
+            return self._pml
+        body = self.an.body
+        out = {}
+        loops = [(tl, hd, body.natural_loop(tl, hd)) for (tl, hd) in body.back_edges()]
+        heads = {}
+        for tl, hd, lp in loops:
+            heads.setdefault(hd, set()).update(lp)
+        for hd, lp in heads.items():
+            exits = [(s_, t_) for s_ in lp for t_ in body.succ(s_) if t_ not in lp and body.blocks[t_]["t"].get("k") != "unreachable"]
+            if len(exits) != 1:
+                continue
+            calls = [(bb, t) for bb, t in body.calls() if bb in lp]
+            nexts = [(bb, t) for bb, t in calls if short(cname(t)) == "Iterator::next"]
+            pushes = [(bb, t) for bb, t in calls if short(cname(t)) == "Vec::<T, A>::push"]
+            if len(nexts) != 1 or len(pushes) != 1:
+                continue
+            if any(h2 != hd and h2 in lp for h2 in heads):
+                continue                     # nested loops inside
+            # the exit must be the None edge of the test on the `next()` result
+            try:
+                d, rel, vals = self.an.edge_atom(*exits[0])
+            except Exception:
+                continue
+            ds = strip(d)
+            if not (ds[0] == "discr" and strip(ds[1])[0] == "call" and short(strip(ds[1])[1]) == "Iterator::next"):
+                continue
+            try:
+                if self.push_loop_as_map(pushes[0][0], pushes[0][1]) is None:
+                    continue
+            except Exception:
+                continue
+            out[exits[0][0]] = (hd, frozenset(lp))
+        self._pml = out
+        return out
+
     def push_loop_as_map(self, pbb, pterm):
         """`let mut v = Vec::new(); for x in IT { v.push(f(x)) }` (one push, on every iteration of a loop over IT, the
         pushed value a function of the loop's element) is `IT.map(|x| f(x)).collect()`: the same canonical name"""
@@ -1498,6 +1538,9 @@ class Sym:
         return bool(defs) and all(x[0] == "const" and isinstance(x[1], bool) for x in defs)
 
     def atoms_of_edge(self, s, t):
+        pml = self.pure_map_loops()
+        if s in pml and t not in pml[s][1]:
+            return []                       # exhaustion of a map/collect written as a push loop
         d, rel, vals = self.an.edge_atom(s, t)
         dty = self.an.body.blocks[s]["t"].get("dty", {})
         return self.atoms(d, rel, vals, is_bool=(dty.get("k") == "bool"))
